@@ -136,7 +136,8 @@ impl Model {
             // a `Dispatch::none()` scope: nobody, not even the global default
             Some(f) if f.k == NONE_K => None,
             Some(f) => Some(f.k),
-            None => self.global,
+            // (the no-op collector installed as the global default: nobody either)
+            None => self.global.filter(|g| *g != NONE_K),
         }
     }
     /// what the pinned implementation does when F1 is present
@@ -145,11 +146,11 @@ impl Model {
             return if f.k == NONE_K { None } else { Some(f.k) };
         }
         if self.open_scopes() == 0 {
-            return self.global;
+            return self.global.filter(|g| *g != NONE_K);
         }
         match self.base[t] {
             1 => None,
-            _ => self.global,
+            _ => self.global.filter(|g| *g != NONE_K),
         }
     }
     /// a thread consulted its default through the slow path (some scope open anywhere)
@@ -223,6 +224,10 @@ fn enabled_ops(cfg: &Cfg, m: &Model) -> Vec<String> {
                 v.push(format!("global:1:{}", k));
             }
         }
+    }
+    // the no-op collector is a collector like any other for the one-shot global default
+    if !c01 {
+        v.push("global:0:none".to_string());
     }
     if c01 {
         v.push("rebuild".to_string());
@@ -431,8 +436,11 @@ fn run(cfg: &Cfg, history: &[String]) -> HResult {
                 m.stacks[t].pop();
             }
             "global" => {
-                let (t, k): (usize, usize) = (p[1].parse().unwrap(), p[2].parse().unwrap());
-                let d = handles[k].clone().unwrap();
+                let t: usize = p[1].parse().unwrap();
+                let (k, d) = if p[2] == "none" { (NONE_K as usize, Dispatch::none()) } else {
+                    let k: usize = p[2].parse().unwrap();
+                    (k, handles[k].clone().unwrap())
+                };
                 let ok = match call(&threads[t], Cmd::SetGlobal(d)) {
                     Reply::Bool(b) => b,
                     r => panic!("{:?}", r),
